@@ -17,6 +17,9 @@ SPEC = {
         {"name": "nflog", "pkg": "./nflog", "timeout_quick": 90, "search_cases": 30000},
         # repeats must survive a rejected reload: the running dispatcher stays in place (C17's engine: the real reload closure)
         {"name": "reload", "pkg": "./reload", "search_cases": 4, "timeout_quick": 400, "timeout_thorough": 900, "timeout_search": 400, "only": ["failed_reload_keeps_running", "failed_reload_keeps_config", "repeat_on_time"]},
+        # the deliveries themselves: the real e-mail notifier against a loopback SMTP server that accepts the message and then fails QUIT
+        # (421 / 5xx / connection dropped): delivered once per flush, logged, the unchanged group is not notified again (engine email, real time)
+        {"name": "email", "pkg": "./email", "search_cases": 40, "timeout_quick": 120},
         # an orphaned live group (maintenance racing the re-creation of a group) keeps notifying on its own: C06's scheduled engine
         {"name": "groupsched", "pkg": "./groupsched", "search_cases": 3000, "quick_cases": 600, "only": ["no_orphan_live_group"]},
     ],
